@@ -57,6 +57,7 @@ struct POp {
     int exp_id;
 };
 
+static std::atomic<uint64_t> g_failed_exchanges{0};
 template<class W>
 static void run_ops(W& w, int fam, int tid, const std::vector<POp>& script, std::vector<LinOp>& hist, std::atomic<uint32_t>* ran)
 {
@@ -110,6 +111,25 @@ static void run_ops(W& w, int fam, int tid, const std::vector<POp>& script, std:
             if (p.op == EXCHANGE) {
                 o.a = p.val;
                 Cell arg = vrf::make_value(static_cast<uint32_t>(p.val));
+                if (lvalue_arg && p.val % 3 == 0) {
+                    // the first copy or copy assignment of the value throws: the exchange fails as a whole, the register keeps
+                    // what it held (the operation is left out of the history, later operations are judged without it)
+                    bool threw = false;
+                    vrf::fault_arm((1u << 1) | (1u << 2), 1);
+                    try {
+                        Cell old = w.exchange(arg);
+                        (void)old;
+                    }
+                    catch (const vrf::Injected&) {
+                        threw = true;
+                    }
+                    vrf::fault_disarm();
+                    if (!threw) vrf::harness_error("exchange of an lvalue copied nothing");
+                    if (vrf::held_count() != 0) vrf::violation("oracle:lock_held_after_failed_exchange", "{}");
+                    vrf::still_holds(arg, static_cast<uint32_t>(p.val), "failed exchange");
+                    g_failed_exchanges.fetch_add(1, std::memory_order_relaxed);
+                    continue;
+                }
                 Cell old = lvalue_arg ? w.exchange(arg) : w.exchange(vrf::make_value(static_cast<uint32_t>(p.val)));
                 if (lvalue_arg) vrf::still_holds(arg, static_cast<uint32_t>(p.val), "exchange");
                 old.check("exchanged value");
@@ -364,5 +384,6 @@ int main(int argc, char** argv)
             default: one_round(r, fam, new deferred_guarded<Cell, vrf::shared_timed_mutex_t>(false)); break;
         }
     }
+    vrf::count("exchanges_whose_value_copy_threw", g_failed_exchanges.load());
     vrf::finish();
 }
